@@ -92,7 +92,11 @@ def oracle_rcv(c, io):
     if len(got) != len(ref):
         return 'wrong length'
     if len(set(ref)) == len(ref):
-        want = [d.get(k, F(0)) for k in ref]
+        def coeff_at(k):
+            # rows within 5e-9 of an exponent of g are that exponent; rows farther than 1e-7 from all of them are not
+            near = [v for kk, v in d.items() if max(abs(a - b) for a, b in zip(kk, k)) <= F(5, 10 ** 9)]
+            return near[0] if near else F(0)
+        want = [coeff_at(k) for k in ref]
         if got != want:
             return 'coefficients %s are not g\'s coefficients placed at the matching rows %s' % (
                 [str(x) for x in got], [str(x) for x in want])
@@ -176,6 +180,14 @@ def gen_rcv_case(rng, allow_missing):
     if allow_missing and rng.random() < 0.25 and m >= 2:
         ref.remove(rows[rng.randrange(m)])
         kind = 'missing'
+    elif rng.random() < 0.3:
+        # reference rows that equal g's exponents only up to noise far beyond the 7th decimal (a raw, unrounded alpha)
+        ref = [list(r) for r in ref]
+        for r in ref:
+            if rng.random() < 0.5:
+                j = rng.randrange(n)
+                r[j] = F(float(r[j] + rng.choice([F(2, 10 ** 9), F(-1, 10 ** 9), F(4, 10 ** 9)])))
+        kind = 'noisy'
     return {'g': leaf(rows, cs, n, poly), 'ref': rows_json(ref), 'kind': kind}
 
 
